@@ -235,8 +235,8 @@ theorem zipOK_rekey {c : Color} {l : T α β} {k : α} {v : β} {r : T α β} {p
 
 /-- `Tree_Rem` at the node found -/
 theorem remHere_valid (c : Color) (l : T α β) (nk : α) (nv : β) (r : T α β) (p : Path α β)
-    (hz : ZipOK (.node c l nk nv r) p) : ∃ t', remHere c l nk nv r p = some t' ∧ ValidT t' := by
-  unfold remHere
+    (hz : ZipOK (.node c l nk nv r) p) : ∃ t', remHereA c l nk nv r p = some t' ∧ ValidT t' := by
+  unfold remHereA
   split
   · rename_i lc ll lk lv lr rc rl rk rv rr
     obtain ⟨pr, hpr⟩ : ∃ pr, maxLoc (T.node lc ll lk lv lr) ([] : Path α β) = some pr := by
@@ -268,11 +268,11 @@ theorem remHere_valid (c : Color) (l : T α β) (nk : α) (nv : β) (r : T α β
 
 /-- `Tree_Rem` from a well-formed position: it never dereferences NULL, and what it returns is a red-black tree -/
 theorem remAt_valid (cmp : α → α → Ordering) (t : T α β) (p : Path α β) (k : α) (hz : ZipOK t p) :
-    ∃ r, remAt cmp t p k = some r ∧ ∀ t', r = some t' → ValidT t' := by
+    ∃ r, remAtA cmp t p k = some r ∧ ∀ t', r = some t' → ValidT t' := by
   induction t generalizing p with
   | nil => exact ⟨none, rfl, fun _ h => by cases h⟩
   | node c l nk nv r ihl ihr =>
-    simp only [remAt]
+    simp only [remAtA]
     cases cmp nk k with
     | eq =>
       obtain ⟨t', e, hv⟩ := remHere_valid c l nk nv r p hz
